@@ -65,6 +65,13 @@ int main(int argc, char** argv) {
       check(d, B.proj(P), "rank-one");
     }
     for (int w = 0; w < 3; w++) { check(d, probe(d, w), "dense"); check(d, scaled(probe(d, w), 1e100), "dense-scaled"); check(d, scaled(probe(d, w), 1e-100), "dense-scaled"); }
+    // identity component and traceless part of independent magnitudes (incl. ones whose squares leave the double range)
+    for (double c0 : {0.0, 1.0, -3.0, 1e8, 2e154, -1e160, 1e165, 1e-160, 3e300}) for (double tm : {1.0, 1e-8, 1e8, 1e140, 1e152, 1e154, 1e-154, 1e-200}) {
+      if (!(std::fabs(c0) <= 1e300 / 8 && tm <= 1e300 / 8)) { if (std::fabs(c0) > 1e300 / 8 && tm > 1e150) continue; }
+      if (c0 != 0 && (tm / std::fabs(c0) < 1e-13)) continue;   // a traceless part below the rounding level of the identity part is not resolvable: residual is judged relative to max|M|
+      std::vector<double> c = scaled(probe(d, 1), tm / maxabs(probe(d, 1))); c[0] = c0;
+      check(d, c, "identity-plus-traceless");
+    }
     // near-degenerate: W diag(1,1+eps,2,3,..) W^dagger
     for (int w = 0; w < 2; w++) { Mat W = unitary(d, w), Wd = ref::dagger(W);
       for (double eps : {1e-6, 1e-9, 1e-12, 0.0}) { std::vector<double> e(d); for (int i = 0; i < d; i++) e[i] = (i == 0) ? 1.0 : (i == 1 ? 1.0 + eps : (double)i); check(d, B.proj(W * ref::diag(e) * Wd), eps == 0 ? "degenerate-rotated" : "near-degenerate"); } }
